@@ -26,6 +26,39 @@ def iter_chain(e):
     return e, chain
 
 
+def counted_loops(body):
+    """[{'node', 'var', 'dir'}] for the index-driven loops below `body`"""
+    out = []
+    for w in find_all(body, lambda n: n.get('k') == 'while'):
+        c = w['cond']
+        if c.get('k') != 'binary':
+            continue
+        stmts = w['body']['stmts']
+
+        def step_of(st, var, op):
+            e = st.get('expr') if st.get('k') == 's_expr' else None
+            if not e:
+                return False
+            if e.get('k') == 'assignop' or (e.get('k') == 'binary' and e.get('op') in ('-=', '+=')):
+                return path_of(e.get('l') or e.get('left')) == [var] and e.get('op') == op and render(e.get('r') or e.get('right')) == '1'
+            if e.get('k') == 'assign':
+                r = e.get('r') or e.get('right') or e.get('value')
+                return path_of(e.get('l') or e.get('left') or e.get('target')) == [var] and render(r).replace(' ', '') == '%s%s1' % (var, op[0])
+            return False
+        l, r = c['l'], c['r']
+        if c['op'] in ('>', '!=') and path_of(l) and len(path_of(l)) == 1 and render(r) == '0' and stmts and step_of(stmts[0], path_of(l)[0], '-='):
+            out.append({'node': w, 'var': path_of(l)[0], 'dir': 'reverse'})
+        elif c['op'] in ('<', '!=') and path_of(l) and len(path_of(l)) == 1 and stmts and any(step_of(s_, path_of(l)[0], '+=') for s_ in stmts):
+            out.append({'node': w, 'var': path_of(l)[0], 'dir': 'forward'})
+    for f in find_all(body, lambda n: n.get('k') == 'for'):
+        it = f['iter']
+        base, ch = iter_chain(it)
+        ms = [m for m, _ in ch]
+        if f['pat'].get('k') == 'p_ident' and base.get('k') in ('range', 'paren') and ms in ([], ['rev']):
+            out.append({'node': f, 'var': f['pat']['name'], 'dir': 'reverse' if ms == ['rev'] else 'forward'})
+    return out
+
+
 def run(ctx, rep):
     F = ctx.facts()
     S = ctx.syn()
@@ -90,6 +123,8 @@ def run(ctx, rep):
         elif ms in (['iter', 'enumerate', 'rev'],):
             verdict_scopes = 'reverse'
         searches = find_all(loops[0]['body'], lambda n: n.get('k') == 'mcall' and n['method'] in ('position', 'rposition', 'find', 'rfind', 'last'))
+        if not searches:
+            searches = find_all(res['body'], lambda n: n.get('k') == 'mcall' and n['method'] in ('position', 'rposition', 'find', 'rfind', 'last'))
         if len(searches) == 1:
             base2, ch2 = iter_chain(searches[0])
             ms2 = [m for m, _ in ch2]
@@ -101,6 +136,24 @@ def run(ctx, rep):
                 verdict_names = 'latest-first(rev)'
             elif ms2 == ['iter', 'enumerate', 'rev', 'find'] or ms2 == ['iter', 'enumerate', 'filter', 'last']:
                 verdict_names = 'latest-first'
+    if verdict_scopes is None or verdict_names is None:
+        # index-driven loops: `while i > 0 { i -= 1; .. x[i] .. }` (reverse) / `while i < n { .. x[i] ..; i += 1 }` (forward)
+        for lp in counted_loops(res['body']):
+            for ix in find_all(lp['node']['body'], lambda n: n.get('k') == 'index' and path_of(n['index']) == [lp['var']]):
+                # only the accesses of this loop, not those of a nested counted loop with another counter
+                base = render(ix['base'])
+                if 'symbols' in base and 'self' in base:
+                    verdict_scopes = verdict_scopes or lp['dir']
+                else:
+                    early = find_all(lp['node']['body'], lambda n: n.get('k') == 'return')
+                    if early:
+                        verdict_names = verdict_names or ('latest-first' if lp['dir'] == 'reverse' else 'earliest-first')
+    if verdict_names is None:
+        srch = find_all(res['body'], lambda n: n.get('k') == 'mcall' and n['method'] in ('position', 'rposition', 'find', 'rfind', 'last'))
+        if len(srch) == 1:
+            ms2 = [m for m, _ in iter_chain(srch[0])[1]]
+            verdict_names = {('iter', 'rposition'): 'latest-first', ('iter', 'position'): 'earliest-first', ('iter', 'rev', 'position'): 'latest-first(rev)',
+                             ('iter', 'enumerate', 'rev', 'find'): 'latest-first', ('iter', 'enumerate', 'filter', 'last'): 'latest-first'}.get(tuple(ms2))
     if verdict_scopes is None or verdict_names is None:
         raise CheckerError('R09.2: unrecognised lookup idiom in Context::resolve (scopes: %s, names: %s)' % (verdict_scopes, verdict_names))
     rep.ob(verdict_scopes == 'reverse', 'R09.2', 'symbols::Context::resolve', 'scope order', 'scopes are searched innermost first (%s)' % verdict_scopes, 'src/symbols.rs:%d' % res['line'])
@@ -145,15 +198,41 @@ def run(ctx, rep):
     for w in want_arms:
         rep.ob(any(a.startswith(w) for a in arms_resolving), 'R09.4', 'compiler::Compiler::compile_expression', 'unknown name in ' + w,
                'a failed resolve leads to an error exit of the compiler', 'src/compiler.rs')
-    # those error exits are ReferenceErrors: every `None` arm of a resolve match constructs Error::ReferenceError (MIR)
+    # those error exits are ReferenceErrors: at every call of the symbol table's resolve in the compiler, the `None` side
+    # constructs Error::ReferenceError (directly, or in the closure handed to ok_or_else) (MIR, helpers spliced in)
     n_ref = 0
-    for fname in ('compiler::Compiler::compile_expression', 'compiler::Compiler::compile_const_var_infix_expression'):
-        fn = F.fn(fname)
-        for b, si, st in fn.stmts():
-            if st['k'] == 'assign' and st['rv']['k'] == 'aggregate' and st['rv'].get('adt') == 'object::Error' and st['rv'].get('variant') == 'ReferenceError':
-                n_ref += 1
+
+    def is_referr(st):
+        return st['k'] == 'assign' and st['rv']['k'] == 'aggregate' and st['rv'].get('adt') == 'object::Error' and st['rv'].get('variant') == 'ReferenceError'
+    resolvers = {'symbols::SymbolTable::resolve'} | {'symbols::SymbolTable::' + n for n in R['csa'].symtab_resolve}
+    for fn in [f for f in F.all_fns if f.crate == 'lib' and f.path.startswith('compiler::Compiler::') and '{closure' not in f.path]:
+        for b, t in fn.calls():
+            if callee_name(t) not in resolvers or t['target'] is None:
+                continue
+            n_ref += 1
+            okr = False
+            why = 'no ReferenceError on the None side'
+            for sb in sorted(fn.reachable(t['target'])):
+                tt = fn.term(sb)
+                if tt['k'] == 'switch':
+                    c = sym(fn, tt['op'])
+                    if c[0] == 'discr' and 'core::option::Option' in str(c[2]) and callee_name(t) in str(c[1]) and fn.dominates(b, sb):
+                        none_t = [tb for v_, tb in tt['targets'] if v_ == 0]
+                        some_t = [tb for v_, tb in tt['targets'] if v_ == 1] + ([tt['otherwise']] if not any(v_ == 1 for v_, _ in tt['targets']) else [])
+                        if not none_t:
+                            none_t = [tt['otherwise']]
+                        region = fn.reachable(none_t[0], stop=set(some_t))
+                        if any(is_referr(st) for rb in region for st in fn.blocks[rb]['stmts']):
+                            okr = True
+                        break
+                elif tt['k'] == 'call' and callee_name(tt).endswith(('::ok_or_else', '::ok_or')) and callee_name(t) in str(sym(fn, tt['args'][0])):
+                    a1 = sym(fn, tt['args'][1]) if len(tt['args']) > 1 else ('?',)
+                    clos = [g for g in F.all_fns if g.path.startswith(fn.path + '::{closure') or any(g.path.startswith(h + '::{closure') for h in F.inlined.get(('lib', fn.path), []))]
+                    if any(is_referr(st) for g in clos for _, _, st in g.stmts()) or 'ReferenceError' in str(a1):
+                        okr = True
+                    break
+            rep.ob(okr, 'R09.4', fn.path, 'unresolved name at %s#%d' % (callee_name(t).split('::')[-1], n_ref), 'a failed lookup becomes Error::ReferenceError' if okr else why, span_loc(t['span']))
     rep.count('reference_error_sites', n_ref)
-    rep.ob(n_ref >= 3, 'R09.4', 'compiler::Compiler', 'ReferenceError construction sites', '%d sites construct Error::ReferenceError' % n_ref, 'src/compiler.rs')
     # compile-time: eval runs the VM only after compile_ast returned Ok (R01.1)
     from rules import c01
     c01.check_pipeline(ctx, rep, 'R09.4')
@@ -164,7 +243,7 @@ def run(ctx, rep):
     let_arm = [a for a in arms if render_pat(a['pat']).startswith('Stmt::Let')]
     ok = False
     if len(let_arm) == 1:
-        calls = [n for n in find_all(let_arm[0]['body'], lambda n: n.get('k') == 'mcall')]
+        calls = [n for n in find_all(S.expanded('src/compiler.rs', 'Compiler', let_arm[0]['body']), lambda n: n.get('k') == 'mcall')]
         order = [n['method'] for n in calls if n['method'] in ('define', 'compile_expression')]
         ok = order[:2] == ['define', 'compile_expression']
     rep.ob(ok, 'R09.5', 'compiler::Compiler::compile_statement', 'Stmt::Let order', 'define(name) precedes compile_expression(value)', 'src/compiler.rs')
@@ -172,11 +251,12 @@ def run(ctx, rep):
     farm = [a for m in find_all(ce['body'], lambda n: n.get('k') == 'match') for a in m['arms'] if render_pat(a['pat']).startswith('Expr::Function')]
     ok = False
     if len(farm) == 1:
-        calls = [n for n in find_all(farm[0]['body'], lambda n: n.get('k') == 'mcall')]
+        fbody = S.expanded('src/compiler.rs', 'Compiler', farm[0]['body'])
+        calls = [n for n in find_all(fbody, lambda n: n.get('k') == 'mcall')]
         order = [n['method'] for n in calls if n['method'] in ('define', 'new_context', 'compile_block_statement', 'leave_context')]
         ok = order[:2] == ['define', 'new_context'] and 'compile_block_statement' in order and order.index('new_context') < order.index('compile_block_statement') < order.index('leave_context')
         # parameters are defined right after new_context, in order (for-loop over parameters)
-        fl = [n for n in find_all(farm[0]['body'], lambda n: n.get('k') == 'for')]
+        fl = [n for n in find_all(fbody, lambda n: n.get('k') == 'for')]
         okp = any(render(n['iter']).endswith('parameters') and find_all(n['body'], lambda x: x.get('k') == 'mcall' and x['method'] == 'define') for n in fl)
         ok = ok and okp
     rep.ob(ok, 'R09.5', 'compiler::Compiler::compile_expression', 'Expr::Function order', 'define(name); new_context(); define(parameters in order); body; leave_context()', 'src/compiler.rs')
@@ -191,9 +271,12 @@ def check_visibility(ctx, rep, rule):
     for b, t in sr.calls():
         if callee_name(t) == 'symbols::Context::resolve':
             a = str(sym(sr, t['args'][0]))
-            if 'current_context' in a:
+            if 'split_last' in a and 'contexts' in a:
+                # (last, prefix) of the context stack: the prefix's first element is contexts[0] whenever it exists
+                consulted.append('global' if '::first' in a else 'current')
+            elif 'current_context' in a or ('contexts' in a and ('::last' in a or '::last_mut' in a)):
                 consulted.append('current')
-            elif 'index' in a and "('int', 0)" in a and 'contexts' in a:
+            elif 'contexts' in a and (('index' in a and "('int', 0)" in a) or '::first' in a):
                 consulted.append('global')
             else:
                 consulted.append('other:' + a[:80])
